@@ -647,6 +647,15 @@ class HTTPResponse(BaseHTTPResponse):
         if not self._pool or not self._connection:
             return None
 
+        # The rest of a body that was not read to its end is still to arrive
+        # on the connection: it must not carry another request.
+        if (
+            self._original_response is not None
+            and not self._original_response.isclosed()
+            and self.length_remaining != 0
+        ):
+            self._connection.close()
+
         self._pool._put_conn(self._connection)
         self._connection = None
 
